@@ -495,7 +495,7 @@ def run(args):
     if not st['info']['ok'] or not st['driver']:
         chk.require(False, 'build failed: %r %r' % (st['info']['errors'][:1], (st.get('driver_err') or '')[-300:]))
         return chk.finish()
-    n = int((240 if args.tier == 'quick' else 30000) * args.scale)
+    n = int((240 if args.tier == 'quick' else 12000) * args.scale)
     tmpdir = tempfile.mkdtemp(prefix='vt-c17-')
     harness = []
     try:
